@@ -164,7 +164,24 @@ def run(ctx, mod, jobs=16):
     base_keys = {f.key for f in ctx.findings}
     work, meta = [], []
     stale = 0
+    # generated twins: the behaviour-preserving rewrites of sa/refactors.py applied to every file the rules look at
+    from . import refactors
+    try:
+        rf_files = refactors.files_of(prop, refactors.load_props(), prog.root)
+    except Exception:  # noqa: BLE001
+        rf_files = []
+    for rk in refactors.KINDS:
+        try:
+            ov_r = refactors.overlay_for(rf_files, rk, prog.root)
+        except Exception:  # noqa: BLE001
+            ov_r = None
+        if ov_r:
+            items.append(("gentwin", rk, {"overlay": ov_r}))
     for kind, name, m in items:
+        if kind == "gentwin":
+            work.append((prop, mod.__name__, m["overlay"], prog.root))
+            meta.append((kind, name, m))
+            continue
         if kind == "seeded":
             ov = _overlay_from_patch(prog, m["patch"])
         elif kind == "revfix":
@@ -206,6 +223,13 @@ def run(ctx, mod, jobs=16):
                 rev_det += 1
             else:
                 problems.append(f"reverting fix {name} is not noticed (error={r['error']})")
+        elif kind == "gentwin":
+            gen_tot = ctx.extra.get("generated_twins_total", 0) + 1
+            ctx.extra["generated_twins_total"] = gen_tot
+            if flagged:
+                ctx.note(f"generated rewrite `{name}` changes the verdict: {new[:2] or r['error']}")
+            else:
+                ctx.extra["generated_twins_silent"] = ctx.extra.get("generated_twins_silent", 0) + 1
         elif kind == "twin":
             if flagged:
                 noisy += 1
@@ -238,7 +262,8 @@ def run(ctx, mod, jobs=16):
     )
     print(
         f"[{prop}] battery: mutants {killed}/{killed + survived} killed, twins {silent}/{silent + noisy} silent, "
-        f"seeded {seeded_det}/{seeded_det + seeded_miss} detected, reverted fixes {rev_det}/{rev_tot} detected, stale {stale}"
+        f"seeded {seeded_det}/{seeded_det + seeded_miss} detected, reverted fixes {rev_det}/{rev_tot} detected, stale {stale}, "
+        f"generated rewrites {ctx.extra.get('generated_twins_silent', 0)}/{ctx.extra.get('generated_twins_total', 0)} silent"
     )
     if problems and not base_keys - {k for k in base_keys}:
         pass
